@@ -1,5 +1,6 @@
 import TLVerif.Syntaxtl2.ParserLemmas
 import TLVerif.Syntaxtl2.ErrorPrintLemmas
+import TLVerif.Syntaxtl2.PositionLemmas
 /-! # C20 — TL2 parser is total with in-range error positions
 
 Statement (fixed): for any input text, parsing it as TL2 returns either a file or an error whose reported position
@@ -52,6 +53,16 @@ theorem parse_error_pos_in_text (tx : Bytes) (e : PErr) (h : parseTL2File tx = .
   injection h1 with h1
   obtain ⟨k1, k2, k3, k4, k5, k6, k7⟩ := h2 e h1.symm
   exact ⟨k2, k5, k6, k1, k3, k4, k7⟩
+
+/-- **Line/column consistency**: the three positions of every error returned by `ParseTL2File` satisfy
+`column = offset - startLineOffset + 1`, `startLineOffset ≤ offset`, `line ≥ 1`, and begin and end are on one line
+(every error is `parseErrToken(tok, outer)` of lexer tokens, whose positions the lexer keeps consistent). -/
+theorem parse_error_columns (tx : Bytes) (e : PErr) (h : parseTL2File tx = .ok (.error e)) :
+    (e.outer.col = e.outer.off - e.outer.slo + 1 ∧ 1 ≤ e.outer.line) ∧
+    (e.b.col = e.b.off - e.b.slo + 1 ∧ 1 ≤ e.b.line) ∧
+    (e.e.col = e.e.off - e.e.slo + 1 ∧ e.e.slo ≤ e.e.off ∧ e.e.line = e.b.line) := by
+  obtain ⟨⟨_, a2, a3⟩, ⟨_, b2, b3⟩, ⟨c1, c2, _⟩, d⟩ := parseTL2File_error_columns tx e h
+  exact ⟨⟨a2, a3⟩, ⟨b2, b3⟩, ⟨c2, c1, d⟩⟩
 
 /-- **Printing** never panics, for ANY position range (also ones outside the text: `safeRange` and the `if` before
 `fc[End.offset:]` guard every slice), any colour and both the error and the warning form. -/
